@@ -130,6 +130,11 @@ Step ==
          /\ (IF Online /\ r.note = "PDUSessionEstablishmentRequest" /\ r.abs.u \in 1..Len(Scn.ues) /\ "setupDelay" \in DOMAIN Choice(r.abs.u)
                 /\ Choice(r.abs.u).setupDelay > 0 /\ Len(r.out) > 0
              THEN IOExec(<<"sleep", ToString(Choice(r.abs.u).setupDelay)>>).exitValue = 0 ELSE TRUE)
+         \* the answers to this message include the one that is replaced by the close (or followed by it): the association's receiving
+         \* direction is shut first, so that the emulator's next write fails whenever it is scheduled - "the AMF closes while handling
+         \* message k" as one step, the way Stg.tla has it (Deliver), not a race between the emulator's reply and the pump's next request
+         /\ (IF Online /\ Fault.kind \in {"close", "closeafter"} /\ Fault.at >= j /\ Fault.at < j + Len(r.out)
+             THEN IOExec(<<PumpBin, "ctl", "-sock", Sock, "shutrd">>).exitValue = 0 ELSE TRUE)
          /\ SendAll(j, r.out)
          /\ amf' = r.amf /\ j' = j + Len(r.out) /\ k' = k + 1
          /\ nbad' = nbad + Cardinality(r.complaints)
